@@ -118,6 +118,7 @@ def run(ctx):
     jws_gate(ctx)
     jwe_gate(ctx)
     jwe_multi_gate(ctx)
+    jwe_unknown_names(ctx)
     jwt_gate(ctx)
     none_alg(ctx)
     # ---------------- (c) history
@@ -244,6 +245,68 @@ def jwe_gate(ctx):
                                 ctx.report(f"JWE {op} ({form}) with {named} under allow={allow} ({via}=): {out}",
                                            {"header": hdr, "allow": allow, "via": via, "form": form, "op": op, "out": out},
                                            f"gate-jwe-{op}:{'refused' if want else 'used-or-wrong-error'}")
+
+
+UNKNOWN_NAMES = ["", " ", "def", "DEF ", " DEF", "GZIP", "none", "NONE", "null", "0", "false", "dir ", "DIR", "A128gcm", "a128kw", "\u0000",
+                 "DEF\n", "D\u0045F\u200b", "zip"]
+
+
+def jwe_unknown_names(ctx):
+    """A well-typed but unregistered name in the alg, enc or zip slot - including the ones a truthiness or
+    normalising test would let through (the empty string, blanks, other letter case, trailing newline) - makes
+    encryption and decryption fail with UnsupportedAlgorithmError, under every allow-list.  For `zip` the token is
+    otherwise completely valid (reference-encrypted, plaintext not compressed), so an implementation that skips the gate
+    returns the plaintext."""
+    from joserfc import jwe
+    from harness import jweref as R
+    from harness import keys as K
+    rng = ctx.rng
+    names = UNKNOWN_NAMES if ctx.tier != "quick" else ["", " "] + rng.sample(UNKNOWN_NAMES[2:], 5)
+    base = [("dir", "A128GCM", "oct16"), ("A128KW", "A128CBC-HS256", "oct16")] + ([("ECDH-ES", "A256GCM", "p256"), ("RSA-OAEP", "A128GCM", "rsa2048")] if ctx.tier != "quick" else [])
+    for alg, enc, kn in base:
+        key = K.key(kn, private=True)
+        pub = K.key(kn, private=False) if K._SPECS[kn][0] != "oct" else key
+        native = key.raw_value if isinstance(key.raw_value, bytes) else key.raw_value.public_key()
+        allows = [None, [alg, enc], [alg, enc, "DEF"]]
+        for slot in ("zip", "alg", "enc"):
+            for name in names:
+                hdr = {"alg": alg, "enc": enc}
+                hdr[slot] = name
+                for ser in ("compact", "flat"):
+                    # -- consuming
+                    if slot == "zip":
+                        tok = R.encrypt(alg, enc, native, b"attack at dawn", header_extra={"zip": name}, serialization=ser)
+                    else:
+                        tok = R.rewrite_protected(R.encrypt(alg, enc, native, b"attack at dawn", serialization=ser), {slot: name})
+                    for allow in allows:
+                        kw = {} if allow is None else {"algorithms": allow}
+                        try:
+                            r = jwe.decrypt_compact(tok, key, **kw) if ser == "compact" else jwe.decrypt_json(copy.deepcopy(tok), key, **kw)
+                            out = f"returned {r.plaintext!r}"
+                        except Exception as e:  # noqa: BLE001
+                            out = err_name(e)
+                        ctx.count("jwe-unknown-name-decrypt", (alg, enc, slot, name, ser, repr(allow)), True, f"{slot}:{out if out.startswith('returned') is False else 'RETURNED'}")
+                        if out != "UnsupportedAlgorithmError":
+                            ctx.report(f"JWE decryption ({ser}) of a token whose {slot} is the unregistered name {name!r} (allow={allow}): {out}",
+                                       {"token": tok.decode() if isinstance(tok, bytes) else tok, "key": key.as_dict(), "allow": allow, "slot": slot, "name": name},
+                                       f"unknown-name:decrypt:{slot}")
+                    # -- producing
+                    for allow in allows:
+                        kw = {} if allow is None else {"algorithms": allow}
+                        try:
+                            if ser == "compact":
+                                t2 = jwe.encrypt_compact(dict(hdr), b"x", pub, **kw)
+                            else:
+                                o2 = jwe.FlattenedJSONEncryption(dict(hdr), b"x")
+                                o2.add_recipient(None, pub)
+                                t2 = jwe.encrypt_json(o2, None, **kw)
+                            out = f"produced {str(t2)[:60]}"
+                        except Exception as e:  # noqa: BLE001
+                            out = err_name(e)
+                        ctx.count("jwe-unknown-name-encrypt", (alg, enc, slot, name, ser, repr(allow)), True, f"{slot}:{out if not out.startswith('produced') else 'PRODUCED'}")
+                        if out != "UnsupportedAlgorithmError":
+                            ctx.report(f"JWE encryption ({ser}) with the unregistered {slot} name {name!r} (allow={allow}): {out}",
+                                       {"header": hdr, "allow": allow, "slot": slot, "name": name}, f"unknown-name:encrypt:{slot}")
 
 
 def jwe_multi_gate(ctx):
